@@ -121,6 +121,12 @@ pub fn contexts(wlen: impl Fn(u32) -> u32, with_bom: bool) -> Vec<Space> {
     ]
 }
 
+/// Declaration or processing instruction? Only the exact target `xml` makes a declaration: every
+/// spelling of x/X m/M l/L (and look-alikes) behind `<?`.
+pub fn decl_case(max_len: u32) -> Space {
+    context("D.decl_case", &[b"<?", b"<a/><?"], b"xXmMlL ?", max_len, &[b"?>", b" v?>", b"?>x"], false)
+}
+
 /// Layer M: byte-order-mark sequences that are NOT at the start of the input (directly behind markup
 /// or text): they are ordinary character data there and must be reported and counted as such.
 pub fn mid_bom(max_len: u32) -> Space {
